@@ -1,5 +1,13 @@
 # C05 — termination is hierarchical and complete; shutdown waits for everyone
-# Two sub-checks: the kernel model (klock, shared with C03/C04/C06: actors) and the temporary reply addresses (c05addr).
+# Three sub-checks: the kernel model (klock, shared with C03/C04/C06: actors), the temporary reply addresses (c05addr) and
+# the spawn that overlaps the termination / restart of its parent (SpawnModel + tie T3 c05spawn + forced interleavings c05spawn).
+import glob
+import json
+import os
+import re
+import shutil
+import time
+
 import kernel_common as K
 import vlib
 
@@ -18,6 +26,32 @@ TRUSTED_ADDR = [
     "never / when told to; asker actors under a supervisor that restarts at once); answer and timeout are never generated for the same "
     "instant (either may win there); the API is not used after Shutdown",
     "synctest's virtual clock and quiescence detection (synctest.Wait after every operation)",
+]
+
+TRUSTED_SPAWN = [
+    "hand-written machine coq/C05/SpawnModel.v of a spawn that overlaps the termination / restart of its parent (engine/vivid/actor_context.go: "
+    "ActorOf with newActorContext and the refBinder closure — Register, the entry into the parent's children table, the delivery of OnLaunch, "
+    "the load of the PARENT's status, the conditional terminate request — as separate atomic steps of any number of spawner goroutines, against the "
+    "parent's own loop: onTerminate / onRestart (status CAS, then one step for the loop over the children table), onTerminated (entry deleted "
+    "only for an unregistered child), tryTerminated / tryRestarted (len(children) == 0, then the final status store), a terminate overtaking a "
+    "restart), PARAMETERISED by the order of the spawner's steps; a terminate request to an unregistered address is lost; a child that was told "
+    "stops at some later moment; the loop over the children map is ONE step (the unsynchronised map itself — ActorSystem.ActorOf writes the "
+    "guard's table on the caller's goroutine — is the observation of DESIGN §7.4, outside this machine)",
+    "tie T3 (harness/translate/c05spawn, go/ast, syntactic, package engine/vivid of the tree under test): ActorOf is walked in execution order "
+    "with newActorContext, the function literal it returns (where ActorOf calls it) and every package function / method called on the parent's "
+    "or the child's context inlined; which identifiers denote the parent and which the child is tracked by data flow (`ctx` is re-bound to the "
+    "child); extracted: Register, `<parent>.children[..] = ..`, the call carrying onLaunch, every `<parent>.status.Load()`, and `X.Terminate(..)` "
+    "with the enclosing if-conditions evaluated symbolically for 'alive' / 'not alive' (==, != against actorStatusAlive, !, &&, ||, boolean or "
+    "raw-status locals assigned from such an expression); SpawnInstance.v proves by vm_compute that the list is accepted by order_ok — steps "
+    "under go / defer / loops / switch, inside a callback, after a conditional return, a guard that cannot be evaluated or that depends on two "
+    "reads are rejected; reflection, unsafe, aliases of the children map and helpers of other packages are not seen",
+    "tie T1 sub-harness 'spawn' (harness/cmd/c05spawn): search oracle and always-on monitor — the interleavings of the machine FORCED on the real "
+    "ActorSystem: user code that runs inside ActorOf (descriptor configurator, ActorProvider.Provide, dispatcher provider, mailbox provider) "
+    "issues the request and waits until the parent has taken it up and every mailbox is idle (one tracking dispatcher for every actor, default "
+    "dispatcher replaced through the hook VerifSetDefaultDispatcher; held children counted), then lets ActorOf go on; registry enumerated "
+    "through the hook VerifResourceController + reflection; bounds of 4 s (quick) / 10 s (thorough) decide 'hangs'; every case in a child "
+    "process; a Go runtime abort 'concurrent map ..' of the unforced stress family, and a hang / left-over actor of that family, are counted as "
+    "observations (DESIGN §7.4: the unsynchronised children map), not as hits",
 ]
 
 MANIFEST = {
@@ -59,7 +93,28 @@ MANIFEST = {
             "C05-pending-ask-outlives-shutdown). Each run drives ~2 000 scripts (40 000 thorough) on a real ActorSystem on "
             "virtual time and compares clock, registered set after every operation and every completion with the model inside Coq; Go-side "
             "monitors C05:addr:{ask-registered-after-completion, ask-unregistered-while-pending, registered-after-shutdown} restate the "
-            "clause from the harness's own facts.",
+            "clause from the harness's own facts. "
+            "(3) A spawn that overlaps the termination or restart of its parent. The kernel model executes a spawn as one step; in the code "
+            "ActorOf is a sequence of statements that runs off the parent's loop when it is called through ActorSystem.ActorOf (caller's "
+            "goroutine, parent = guard) or from a goroutine an actor started. Interleaving machine (SpawnModel): any number of spawners, each "
+            "executing Register / entry into the parent's children table / OnLaunch / load of the parent's status / conditional terminate request "
+            "in the ORDER the machine is given, against the parent's loop, which may at any moment take up a terminate or restart request "
+            "(CAS; sweep over the children CURRENTLY in the table; notices; len(children)==0; final store; terminate overtaking a restart). "
+            "Proved for every order accepted by order_ok (registered once, then entered once; the value guarding the request read AFTER the "
+            "entry; decided once, sent whenever 'not alive') and every interleaving: a child in the table of a parent that is restarting, "
+            "terminating or terminated whose ActorOf has returned HAS BEEN TOLD to stop, by the sweep or by the late check "
+            "(C05_late_spawn_every_child_told, _returned_is_decided, _table_sound); hence in every state in which nothing can move any more the "
+            "parent is alive, or it has terminated and NO child is registered — a parent is never stuck terminating or restarting and no child "
+            "outlives it (C05_late_spawn_nobody_left_behind). For the status read hoisted to the top of ActorOf three refuting schedules are "
+            "proved: the parent terminating FOR EVER with an untold running child in its table (Shutdown hangs), the parent terminated and "
+            "the child registered for ever, a restart that never completes (C05_late_spawn_hoisted_read_*_refuted). The order of the tree "
+            "under test is extracted on every run (go/ast, data-flow tracking of which identifier is the parent's context) and proved by "
+            "vm_compute to be an accepted one; every run also FORCES the machine's interleavings on the real ActorSystem — 75 combinations "
+            "(parent = guard racing with Shutdown graceful or not / an ordinary actor terminated gracefully or not or restarted, whose helper "
+            "goroutine calls ctx.ActorOf; 0-2 other children held inside OnTerminate; window opened before ActorOf / in a configurator / in "
+            "Provide / in the dispatcher provider / in the mailbox provider and closed only when the parent has taken the request up and "
+            "every mailbox is idle) with monitors C05:late-spawn:{shutdown-hangs, restart-hangs, child-outlives-parent, "
+            "registered-after-shutdown}; at thorough volume under fresh seeds this is the failing-input search when the tie breaks.",
     "note": "Partial: the hierarchy and shutdown theorems carry two hypotheses on the scripts (no spawn from an actor's own OnTerminated "
             "handler — the open orphan finding is exactly that case — and no spawn under a system address); the graceful-drain clause is "
             "decided per run (correspondence + monitors; its queue-order half is a theorem). Four open findings (two orphan, one pending ask, one graceful stop of a suspended descendant). Same trusted base as C03. "
@@ -68,11 +123,23 @@ MANIFEST = {
             "monitor reports it (state=pending) as the known finding C05-pending-ask-outlives-shutdown; a registered address in any other "
             "state after Shutdown (completed ask, returned AwaitForward) is a VIOLATION. The two models are tied to the code separately, not to each other (the address model knows actors only as 'can still "
             "act'); re-creation of an asker under the same name (address reuse, C07 finding 5), remote asks and the inside of one future "
-            "(C07) are outside the address model.",
+            "(C07) are outside the address model. Late spawn: the machine's sweep is one step — the children map itself is "
+            "unsynchronised (ActorSystem.ActorOf writes the guard's table on the caller's goroutine while the guard reads it: 'fatal error: "
+            "concurrent map ..', DESIGN §7.4, outside the property); the forced interleavings keep the parent outside every map operation, the "
+            "unforced stress family of c05spawn (spawns racing with Shutdown in real time) regularly dies of exactly that abort on the "
+            "unchanged tree, and now and then the same race corrupts the guard's table silently (observed: len(children) == 1 with no key "
+            "left, a sweep that reached 1 of 13 entries) so that Shutdown hangs: both are counted (distribution/aborts, stress_outcome; hits "
+            "under the kind prefix observation:unforced-spawn-vs-shutdown:, listed as monitor_hits_of_other_properties), neither is reported "
+            "as a C05 violation — that family cannot tell a late-spawn defect from the map race; the forced family is the oracle. The order tie is syntactic (what it rejects conservatively: steps under go / defer / "
+            "loops, after a conditional return, guards it cannot evaluate) and is backed by the forced runs; 'a child that was told stops' is "
+            "an assumption of the machine (for a graceful request to a suspended child see the open finding above).",
     "technique": "Coq proof (registry/parent/children invariant over every run) on a message-step kernel model + lockstep differential replay "
                  "of the real actor system inside Coq; Coq proof (invariant over every operation sequence) on a virtual-time model of the "
                  "set of temporary addresses + differential runs of the real actor system on synctest virtual time with the registry "
-                 "enumerated after every operation",
+                 "enumerated after every operation; atomic-step interleaving machine of ActorOf against the parent's termination / restart "
+                 "(invariant over every schedule for every accepted statement order, three refuting schedules for the hoisted status read) tied "
+                 "by a go/ast translator whose extracted order is proved accepted by vm_compute on every run + the machine's interleavings "
+                 "forced on the real actor system (monitors; failing-input search)",
 }
 
 _orig_go_build = vlib.go_build
@@ -93,12 +160,129 @@ def addr_sub():
             "args": ["-pendingshutdown"] if FINDING_PENDING in ids else []}
 
 
+def spawn_sub():
+    return {"pkg": "c05spawn", "sub": "spawn", "coq": False, "kinds": ["C05:late-spawn:"]}
+
+
+T3_NAMES = ["C05_late_spawn_source_facts", "C05_late_spawn_of_this_source"]
+HOISTED = ["ARead", "AReg", "AEnter", "ALaunch", "ADecide false true"]          # MV.C05.SpawnModel.hoisted_order
+SOURCE = ["AReg", "AEnter", "ALaunch", "ARead", "ADecide false true"]           # MV.C05.SpawnModel.source_order
+
+
+def t3_spawn(ctx):
+    """Tie T3: extract the order of the spawner's steps from ActorOf / newActorContext / refBinder of the CURRENT engine/vivid, emit
+    SpawnExtracted.v + SpawnInstance.v, compile them (the instance theorems hold iff the order is one accepted by order_ok)."""
+    ctx.obligations += len(T3_NAMES)
+    if not os.path.exists(os.path.join(vlib.COQ, "C05", "SpawnProofs.vo")):
+        ctx.proof_errors.append("T3 (late spawn): coq/C05/SpawnProofs.vo is not built")
+        return
+    d = os.path.join(ctx.scratch, "t3spawn")
+    os.makedirs(d, exist_ok=True)
+    try:
+        exe = _orig_go_build(ctx, "./translate/c05spawn", name="c05spawn_translate")
+    except vlib.CheckError as e:
+        ctx.proof_errors.append("T3: cannot build harness/translate/c05spawn: %s" % str(e)[-800:])
+        return
+    rc, o, e, _ = vlib.sh([exe, "-repo", vlib.REPO, "-out", d], timeout=120)
+    if rc != 0:
+        ctx.extra["late_spawn_tie"] = "broken"
+        ctx.proof_errors.append("T3: ActorOf cannot be read from %s/engine/vivid: %s" % (vlib.REPO, (o + e)[-800:]))
+        return
+    facts = json.loads(o.strip().splitlines()[-1])
+    ctx.extra["t3_late_spawn"] = facts
+    out = ""
+    for f in ("SpawnExtracted.v", "SpawnInstance.v"):
+        rc, o2, e2, _ = vlib.sh(["coqc", "-Q", vlib.COQ, "MV", "-Q", d, "", os.path.join(d, f)], cwd=d, timeout=900)
+        if rc != 0:
+            ctx.extra["late_spawn_tie"] = "broken"
+            order = facts.get("order") or []
+            pos = facts.get("positions") or {}
+            witness = ""
+            if order == HOISTED or (0 <= pos.get("guard_read", -1) < pos.get("enter", -1)):
+                witness = (" The value that guards the terminate request is read BEFORE the child is entered into the parent's table"
+                           + (" — this is MV.C05.SpawnModel.hoisted_order" if order == HOISTED else "") +
+                           ": C05_late_spawn_hoisted_read_parent_waits_for_ever_refuted / _child_outlives_parent_refuted / "
+                           "_restart_never_completes_refuted are the refuting schedules (the parent takes up a terminate or restart request between "
+                           "the read and the entry: its sweep does not see the child, the spawner holds 'alive' and sends nothing — the parent "
+                           "terminates / restarts for ever, or has finished and the child stays registered).")
+            elif pos.get("decide", -1) < 0:
+                witness = " No terminate request to the new child is decided after the table entry at all."
+            stm = ["%s %s [%s]: %s%s" % (x["kind"], x["pos"], x["fn"], x["text"], (" {" + x["why"] + "}") if x.get("why") else "")
+                   for x in facts.get("events") or []]
+            ctx.proof_errors.append(
+                "T3: the steps of ActorOf in the tree under test are executed in the order %s, which is not one the theorems "
+                "C05_late_spawn_every_child_told / _nobody_left_behind hold for (order_ok: the child is registered once, then entered once into "
+                "the parent's children table; the value of the PARENT's status that guards the terminate request to the new child is read AFTER "
+                "that entry; the request is decided exactly once and sent whenever that value is not 'alive'; the source the theorems were "
+                "stated for has %s).%s Statements: %s. %s" % (order, SOURCE, witness, stm, (o2 + e2)[-300:].replace("\n", " ")))
+            return
+        out += o2
+    bad = vlib.FORBIDDEN.search(vlib.strip_comments(open(os.path.join(d, "SpawnExtracted.v")).read() + open(os.path.join(d, "SpawnInstance.v")).read()))
+    closed = len(re.findall(r"Closed under the global context", out))
+    if bad or closed != len(T3_NAMES):
+        ctx.extra["late_spawn_tie"] = "broken"
+        ctx.proof_errors.append("T3 (late spawn): instance theorems not closed under the global context:\n" + out[-800:])
+        return
+    ctx.extra["late_spawn_tie"] = "ok"
+    for n in T3_NAMES:
+        ctx.theorems.append(n)
+        ctx.axioms[n] = []
+        ctx.discharged += 1
+
+
+_orig_default_search = vlib.default_search
+_orig_standard_check = vlib.standard_check
+
+
+def spawn_search(ctx, budget_s=None):
+    """Failing-input search. When the late-spawn tie is broken the model has the refuting schedules (the parent takes up a request between
+    the hoisted status read and the table entry): look for them on the implementation first — the forced interleavings of c05spawn at
+    thorough volume (every combination 4x with fresh random bystanders / grandchild / mailbox, 10 s bounds, the unforced stress family) under
+    fresh seeds — then fall back to the generic search over every sub-harness."""
+    t0 = time.time()
+    binary = next((h[0] for h in ctx.harnesses if h[1] == "spawn"), None)
+    if ctx.extra.get("late_spawn_tie") == "broken" and binary:
+        budget = budget_s or (60 if ctx.tier == "quick" else 300)
+        k = tried = 0
+        while time.time() - t0 < budget:
+            k += 1
+            outdir = os.path.join(ctx.scratch, "search_spawn_%d" % k)
+            os.makedirs(outdir, exist_ok=True)
+            seed = ctx.seed + 104729 * k
+            vlib.sh([binary, "-out", outdir, "-seed", str(seed), "-tier", "thorough", "-nocoq"], timeout=max(120, budget - (time.time() - t0) + 180))
+            for sp in glob.glob(os.path.join(outdir, "*_summary.json")):
+                s = json.load(open(sp))
+                tried += s.get("evaluations", 0)
+                for v in s.get("violations") or []:
+                    if v.get("kind", "").startswith("C05:late-spawn:") and not vlib.match_known(ctx.prop, v):
+                        v["search"] = {"seed": seed, "tier": "thorough", "family": "forced late spawn", "cases_tried": tried}
+                        return v
+            shutil.rmtree(outdir, ignore_errors=True)
+        ctx.extra["late_spawn_search"] = {"cases_tried": tried, "wall_s": round(time.time() - t0, 1), "found": False}
+    return _orig_default_search(ctx, budget_s)
+
+
+def _standard_check(ctx, coq_dirs, properties, harnesses, trusted, design_ref, checker_extra="", chk_modules=None, pre=None):
+    return _orig_standard_check(
+        ctx, coq_dirs, properties, harnesses, trusted, design_ref,
+        checker_extra=checker_extra + "; go run harness/translate/c05spawn && coqc SpawnExtracted.v SpawnInstance.v (order of the statements of "
+                                      "ActorOf in the tree under test = one the late-spawn theorems hold for); harness/cmd/c05spawn: forced "
+                                      "interleavings of a spawn with the parent's termination / restart on the real system (monitors only)",
+        chk_modules=chk_modules, pre=t3_spawn)
+
+
 def check(ctx):
     vlib.go_build = _go_build
-    return K.check(ctx, "C05", ["C05:", "kernel:"], "DESIGN.md §6 C05; docs/C05-ADDR-NOTES.md",
-                   extra_subs=[addr_sub()], extra_trusted=TRUSTED_ADDR)
+    vlib.default_search = spawn_search
+    vlib.standard_check = _standard_check
+    try:
+        return K.check(ctx, "C05", ["C05:", "kernel:"], "DESIGN.md §6 C05; docs/C05-ADDR-NOTES.md",
+                       extra_subs=[addr_sub(), spawn_sub()], extra_trusted=TRUSTED_ADDR + TRUSTED_SPAWN)
+    finally:
+        vlib.default_search = _orig_default_search
+        vlib.standard_check = _orig_standard_check
 
 
 def replay(ctx, path):
     vlib.go_build = _go_build
-    return K.replay(ctx, path, extra_pkgs={"addr": "c05addr"})
+    return K.replay(ctx, path, extra_pkgs={"addr": "c05addr", "spawn": "c05spawn"})
